@@ -3,7 +3,7 @@
 use serde_json::Value;
 
 use crate::fw::{Batch, CheckSpec, Tier, drive};
-use crate::{Args, eng_txm};
+use crate::{Args, eng_store, eng_txm};
 
 const REAL_TXM: &[&str] = &["grafeo_engine::transaction::TransactionManager (all of manager.rs)"];
 
@@ -11,6 +11,7 @@ pub fn run_check(id: &str, args: &Args) -> i32 {
     match id {
         "C03" => c03(args),
         "C04" => c04(args),
+        "C14" => c14(args),
         _ => {
             eprintln!("harness error: no check registered for {id}");
             2
@@ -89,6 +90,37 @@ fn c04(args: &Args) -> i32 {
     )
 }
 
+fn c14(args: &Args) -> i32 {
+    let thorough = args.tier == Tier::Thorough;
+    let spec = CheckSpec {
+        property: "C14",
+        check_name: "C14",
+        level: "exploration",
+        engine: "STORE",
+        rule: "histories of every LpgStore mutator (create/delete node and edge incl. self-loops and parallel edges, set/remove property of every value class, add/remove label, create/drop index, statistics refresh, zone-map rebuild) drawn from the run seed with per-run operation-kind subsets, with and without backward adjacency; hub runs push one adjacency list past 64/128/320 entries; a case is non-trivial when it executed >=3 steps and left a non-empty graph; distinct = distinct operation lists".into(),
+        real: vec!["grafeo_core::graph::lpg::LpgStore", "PropertyStorage", "ChunkedAdjacency", "zone maps", "grafeo_common::mvcc::VersionChain", "statistics"],
+        stub: vec![],
+        assumptions: vec![
+            "mutations are addressed to live entities (writes to deleted ids are not generated, except add/remove label and delete, whose boolean result is checked)".into(),
+            "a node is deleted the way the store documents for nodes with edges: delete_node_edges then delete_node".into(),
+        ],
+        unchecked: vec!["ChunkedAdjacency::compact/freeze_all are not reachable through LpgStore; they are exercised by the adjacency sub-simulation of C15".into()],
+    };
+    let batch = Batch {
+        spec,
+        tier: args.tier,
+        seed: args.seed,
+        runs: runs(args, 20_000, 1_000_000),
+        workers: args.workers,
+    };
+    drive(
+        batch,
+        &|seed, _i| eng_store::run_one(seed, thorough),
+        Some(&eng_store::minimise),
+        &mut |_| {},
+    )
+}
+
 pub fn replay_file(path: &str) -> i32 {
     let text = match std::fs::read_to_string(path) {
         Ok(t) => t,
@@ -109,6 +141,7 @@ pub fn replay_file(path: &str) -> i32 {
     let rep = &doc["replay"];
     let found: Vec<(String, String)> = match rep["engine"].as_str() {
         Some("TXM") => eng_txm::replay(rep),
+        Some("STORE") => eng_store::replay(rep),
         other => {
             eprintln!("harness error: unknown engine {other:?} in {path}");
             return 2;
